@@ -15,17 +15,30 @@
 //	p_x86_roundtrip data        decode(encode(data)) == data, length kept
 //	p_codec name data           Decode(Encode(data)) == data; for the LZMA family the header
 //	                            carries len(data) and `xz --format=lzma -d` accepts the stream;
-//	                            for ZLIB the 256-byte header is as documented
+//	                            for ZLIB the 256-byte header is as documented.  The framing is
+//	                            judged on a snapshot of what Encode returned (taken before Decode
+//	                            gets the slice); the round trip is compared with data as the caller
+//	                            holds it after the calls.
 //	p_codec_big name len period [pos byte]
 //	                            p_codec on an extremely compressible input built in the worker:
 //	                            period repeated to len bytes, optionally one odd byte at pos
+//	p_codec_sparse name len fill {stride phase bytes}...
+//	                            p_codec on a large, highly compressible input with branch opcodes at
+//	                            chosen offsets, built in the worker: fill repeated to len bytes, then
+//	                            for every triple [bytes] written at offset phase (stride 0) or at
+//	                            every offset k*stride-phase, k >= 1 (block boundaries of any
+//	                            power-of-two block size from stride upwards)
+//	p_codec_noise name len seed p_codec on len incompressible bytes (xorshift from seed), built in the worker
 //	p_env_xz                    ok when an xz program is on PATH (which encoder configuration ran)
 //	p_seq mode {codec data}...  a HISTORY of calls in one process, results retained and not copied:
-//	                            mode 0 = all Encodes, then all Decodes; mode 1 = Encode/Decode
-//	                            interleaved.  Every retained Encode / Decode result must still be
-//	                            what it was right after its own call, must decode to its own input,
-//	                            carry its own size; arguments are never modified and results do
-//	                            not alias them.
+//	                            mode bit 0: 0 = all Encodes, then all Decodes; 1 = Encode/Decode
+//	                            interleaved.  mode bit 1: 0 = a new codec value for every call (what
+//	                            CompressorFromGUID hands out); 1 = ONE codec value per codec name,
+//	                            created at its first use and used for every later call of that name
+//	                            (a caller that keeps its compressor).  Every retained Encode / Decode
+//	                            result must still be what it was right after its own call, must decode
+//	                            to its own input, carry its own size; arguments are never modified
+//	                            and results do not alias them.
 //
 // C ops over histories (the model is pure: result i is a function of argument i only):
 //
@@ -39,6 +52,7 @@ import (
 	"compress/zlib"
 	"encoding/binary"
 	"flag"
+	"hash/fnv"
 	"io"
 	"os/exec"
 	"strings"
@@ -240,6 +254,57 @@ func pCodecBig(args []string) string {
 	return codecOracle(args[0], x)
 }
 
+// p_codec_sparse codec length fill {stride phase bytes}...: a large input that stays
+// cheap for every codec (mostly [fill]) but has branch opcodes exactly where a caller
+// of the filter that works in pieces would have to get them right: [bytes] at offset
+// [phase] when stride is 0, else at every offset k*stride-phase (k >= 1) that fits.
+// Same demands as p_codec.
+func pCodecSparse(args []string) string {
+	n := int(UnN(args[1]))
+	fill := UnH(args[2])
+	if len(fill) == 0 {
+		fill = []byte{0}
+	}
+	x := bytes.Repeat(fill, n/len(fill)+1)[:n]
+	put := func(pos int, b []byte) {
+		if pos >= 0 && pos+len(b) <= n {
+			copy(x[pos:], b)
+		}
+	}
+	for i := 3; i+2 < len(args); i += 3 {
+		stride, phase, b := int(UnN(args[i])), int(UnN(args[i+1])), UnH(args[i+2])
+		if stride == 0 {
+			put(phase, b)
+			continue
+		}
+		for at := stride; at-phase < n; at += stride {
+			put(at-phase, b)
+		}
+	}
+	return codecOracle(args[0], x)
+}
+
+// p_codec_noise codec length seed: incompressible input (the compressed form is as long
+// as the input: the size classes of the COMPRESSED size), built here from a seed.
+func pCodecNoise(args []string) string {
+	n := int(UnN(args[1]))
+	st := UnN(args[2])*0x9E3779B97F4A7C15 + 0x2545F4914F6CDD1D
+	x := make([]byte, n+8)
+	for i := 0; i < n; i += 8 {
+		st ^= st << 13
+		st ^= st >> 7
+		st ^= st << 17
+		binary.LittleEndian.PutUint64(x[i:], st)
+	}
+	return codecOracle(args[0], x[:n])
+}
+
+func fingerprint(b []byte) uint64 {
+	h := fnv.New64a()
+	h.Write(b)
+	return h.Sum64() ^ uint64(len(b))<<48
+}
+
 func codecOracle(name string, x []byte) string {
 	args := []string{name}
 	c, family := codecByName(args[0])
@@ -247,15 +312,31 @@ func codecOracle(name string, x []byte) string {
 		return "skip"
 	}
 	tag := " codec=" + args[0] + " len=" + N(uint64(len(x)))
-	e, err := c.Encode(x)
+	before := fingerprint(x)
+	eRet, err := c.Encode(x)
 	if err != nil {
 		return "FAIL encode-error" + tag + ": " + err.Error()
 	}
-	d, err := c.Decode(e)
+	argRewritten := fingerprint(x) != before // used only to word a failure below
+	// The framing clauses speak of what Encode RETURNED: they are judged on a snapshot taken
+	// before Decode sees the slice (the header for ZLIB, the whole stream for the LZMA family,
+	// which xz has to accept), so that nothing Decode does to its argument can fail them.
+	var e []byte
+	switch family {
+	case "lzma":
+		e = clone(eRet)
+	case "zlib":
+		e = clone(eRet[:min(len(eRet), 256)])
+	}
+	eLen := len(eRet)
+	d, err := c.Decode(eRet)
 	if err != nil {
 		return "FAIL decode-of-encode-error" + tag + ": " + err.Error()
 	}
-	if !bytes.Equal(d, x) {
+	if !bytes.Equal(d, x) { // x as the caller holds it now, the way the repository's own test compares
+		if argRewritten {
+			return "FAIL encode-modified-its-argument" + tag
+		}
 		return "FAIL decode-of-encode-differs" + tag
 	}
 	switch family {
@@ -285,7 +366,7 @@ func codecOracle(name string, x []byte) string {
 		if len(e) < 256 {
 			return "FAIL zlib-header-short" + tag
 		}
-		if uint64(binary.LittleEndian.Uint32(e[20:24])) != uint64(len(e)-256) {
+		if uint64(binary.LittleEndian.Uint32(e[20:24])) != uint64(eLen-256) {
 			return "FAIL zlib-header-size" + tag
 		}
 		for i := 0; i < 256; i++ {
@@ -329,7 +410,14 @@ func framingOK(family string, e []byte, n int) string {
 
 // p_seq mode codec1 x1 codec2 x2 ...
 func pSeq(args []string) string {
-	interleaved := args[0] == "1"
+	mode := UnN(args[0])
+	interleaved := mode&1 == 1
+	sharedValues := mode&2 == 2
+	type held struct {
+		c      compression.Compressor
+		family string
+	}
+	values := map[string]held{}
 	type item struct {
 		name, family string
 		c            compression.Compressor
@@ -346,7 +434,12 @@ func pSeq(args []string) string {
 	}
 	encode := func(k int, it *item) string {
 		// the selection flag is set per call: CompressorFromGUID is part of the history
-		it.c, it.family = codecByName(it.name)
+		if h, ok := values[it.name]; ok && sharedValues {
+			it.c, it.family = h.c, h.family
+		} else {
+			it.c, it.family = codecByName(it.name)
+			values[it.name] = held{it.c, it.family}
+		}
 		if it.c == nil {
 			return "skip"
 		}
@@ -853,6 +946,158 @@ func gen(r *Rng, tier string, emit Emit) {
 			emit("C", "sysseq", sa...)
 		}
 	}
+
+	// (families below were added by the coverage audit; they come last so that the
+	// sub-streams of everything above are what they were)
+
+	// 6. histories on codec values the caller KEEPS: one value per codec name, used for
+	// every call of that name (state or buffers kept in the codec value; p_seq modes 2/3).
+	// First every codec twice/three times on its own value in both orders, then two
+	// values taking turns (a b a b), then free mixtures of up to four calls.
+	nsv := 26
+	if thorough {
+		nsv = 400
+	}
+	for it := 0; it < nsv; it++ {
+		rr := r.Fork(uint64(6<<32 + it))
+		k := rr.Range(2, 4)
+		mode := 2 + rr.Intn(2)
+		var pool []string
+		switch {
+		case it < 2*len(names):
+			pool = []string{names[it%len(names)]}
+			mode = 2 + it/len(names)
+			k = rr.Range(2, 3)
+		case rr.Chance(1, 2):
+			pool = []string{names[rr.Intn(len(names))], names[rr.Intn(len(names))]}
+			k = 4
+		default:
+			pool = names
+		}
+		args := []string{N(uint64(mode))}
+		for j := 0; j < k; j++ {
+			name := pool[rr.Intn(len(pool))]
+			if len(pool) == 2 {
+				name = pool[j%2]
+			}
+			args = append(args, name, H(seqInput(rr)))
+		}
+		emit("P", "p_seq", args...)
+	}
+
+	// 7. short buffers through the filtered codecs themselves (LZMAX86.Encode/Decode, not the
+	// hook): an opcode within the first three bytes (the start state decides), a convertible
+	// call in the last five bytes (the size handed to the filter decides), lengths 5..24
+	nsd := 40
+	if thorough {
+		nsd = 800
+	}
+	for it := 0; it < nsd; it++ {
+		rr := r.Fork(uint64(7<<32 + it))
+		n := rr.Range(5, 24)
+		if it < 12 {
+			n = 5 + it
+		}
+		var d []byte
+		if rr.Chance(2, 3) {
+			d = dense(rr, n)
+		} else {
+			d = codeLike(rr, n)
+		}
+		what := rr.Intn(3)
+		if what != 1 {
+			d[rr.Intn(3)] = byte(rr.Pick(0xE8, 0xE9))
+		}
+		if what != 0 {
+			d[n-5] = byte(rr.Pick(0xE8, 0xE9))
+			d[n-1] = byte(rr.Pick(0x00, 0xFF))
+		}
+		emit("P", "p_codec", "golzmax86", H(d))
+		if it%2 == 0 {
+			emit("P", "p_codec", "syslzmax86", H(d))
+		}
+	}
+
+	// 8. large inputs with branch opcodes at the block boundaries: 64 KiB .. 1 MiB of a
+	// filler, a convertible call/jump lying across (or just before, or at) EVERY multiple
+	// of 4096, optionally an unconvertible opcode shortly before it (a pending mask at the
+	// boundary), plus one at the very start and one in the last bytes.  A caller that
+	// filters in pieces of any power-of-two size from 4 KiB upwards has its seams here.
+	call := func(rr *Rng, convertible bool) []byte {
+		b := []byte{byte(rr.Pick(0xE8, 0xE8, 0xE9)), byte(rr.U64()), byte(rr.U64()), byte(rr.Pick(0, 0, 0xFF, int(rr.U64()&0xFF))), byte(rr.Pick(0x00, 0xFF))}
+		if !convertible {
+			b[4] = byte(rr.Pick(0x01, 0x55, 0x7F, 0x80, 0xFE))
+		}
+		return b
+	}
+	sparseArgs := func(rr *Rng, name string, n int, stride int) []string {
+		fill := [][]byte{{0x90}, {0x00}, {0xCC}, {0xFF}, {0x90, 0x41}}[rr.Intn(5)]
+		args := []string{name, N(uint64(n)), H(fill)}
+		if stride < 16 { // calls back to back: one lies across a seam at ANY offset sooner or later
+			args = append(args, N(uint64(stride)), N(uint64(rr.Intn(stride))), H(call(rr, true)))
+			return args
+		}
+		if rr.Chance(1, 2) { // an opcode that is not converted, 5..8 bytes before the seam
+			args = append(args, N(uint64(stride)), N(uint64(rr.Range(5, 8))), H(call(rr, false)))
+		}
+		args = append(args, N(uint64(stride)), N(uint64(rr.Pick(1, 2, 3, 4, 1, 2, 3, 4, 0, 5))), H(call(rr, true)))
+		args = append(args, "0", N(uint64(rr.Intn(3))), H(call(rr, true)))
+		args = append(args, "0", N(uint64(n-5-rr.Intn(3))), H(call(rr, true)))
+		return args
+	}
+	nsp := 5
+	if thorough {
+		nsp = 80
+	}
+	for _, name := range []string{"golzmax86", "syslzmax86"} {
+		for it := 0; it < nsp; it++ {
+			rr := r.Fork(uint64(8<<32+it) ^ uint64(name[0])<<28)
+			n := rr.Pick(1<<16, 2<<16, 3<<16, 1<<20, 1<<16) + rr.Pick(0, 1, 3, 4, 5, 100, rr.Intn(4096))
+			emit("P", "p_codec_sparse", sparseArgs(rr, name, n, 4096)...)
+		}
+		// pieces of a size that is not a power of two: 1 MiB of convertible calls every 7, 11
+		// or 13 bytes (a stride coprime to the piece size puts a call across one of any seven,
+		// eleven, thirteen consecutive seams); the filter turns the constant displacement into
+		// a ramp, which LZMA still compresses quickly
+		nco := 1
+		if thorough {
+			nco = 12
+		}
+		for it := 0; it < nco; it++ {
+			rr := r.Fork(uint64(8<<32+1<<20+it) ^ uint64(name[0])<<28)
+			n := 1<<20 + rr.Intn(4096)
+			if thorough && it%4 == 3 {
+				n = 4<<20 + rr.Intn(4096)
+			}
+			emit("P", "p_codec_sparse", sparseArgs(rr, name, n, rr.Pick(7, 7, 11, 13))...)
+		}
+	}
+
+	// 9. the size classes around 2^24 (the width of a section size field, the LZMA
+	// dictionary size): every codec on a constant / sparse input a little above 16 MiB, the
+	// codecs that are fast on incompressible data (compressed size above 2^24) on noise.
+	// thorough: also 2^25 and 2^26, and 256 KiB of noise through the LZMA family (the Go
+	// encoder manages about half a megabyte of noise per second).
+	tops := []int{1 << 24}
+	if thorough {
+		tops = []int{1 << 24, 1 << 24, 1 << 25, 1 << 26}
+	}
+	for ti, top := range tops {
+		for _, name := range names {
+			rr := r.Fork(uint64(9<<32+ti) ^ uint64(len(name))<<20 ^ uint64(name[0])<<28 ^ uint64(name[len(name)-1])<<36)
+			n := top + rr.Pick(1, 2, 4096, 1+rr.Intn(4096))
+			if strings.HasSuffix(name, "x86") {
+				emit("P", "p_codec_sparse", sparseArgs(rr, name, n, 65536)...)
+			} else {
+				emit("P", "p_codec_big", name, N(uint64(n)), H([]byte{byte(rr.Pick(0x00, 0xFF, 0x55)), byte(rr.Pick(0x00, 0xAA))}), N(uint64(n-1)), "1")
+			}
+			if name == "zlib" || name == "lz4" {
+				emit("P", "p_codec_noise", name, N(uint64(top+rr.Intn(4096))), N(rr.U64()&0xFFFF))
+			} else if thorough && ti == 0 {
+				emit("P", "p_codec_noise", name, N(uint64(1<<18+rr.Intn(4096))), N(rr.U64()&0xFFFF))
+			}
+		}
+	}
 }
 
 func main() {
@@ -865,6 +1110,8 @@ func main() {
 	Register("p_x86_roundtrip", pX86Roundtrip)
 	Register("p_codec", pCodec)
 	Register("p_codec_big", pCodecBig)
+	Register("p_codec_sparse", pCodecSparse)
+	Register("p_codec_noise", pCodecNoise)
 	Register("p_env_xz", pEnvXZ)
 	Register("p_seq", pSeq)
 	Register("lzmaseq", opLzmaSeq)
